@@ -13,6 +13,38 @@ def regen_logics():
     return report
 
 
+def _ident(msg):
+    import re
+    return re.sub(r"[^A-Za-z0-9]+", "_", msg)[:180].strip("_")
+
+
+def regen_dispatch():
+    """coq/gen/Operators.v and coq/gen/Dispatch.v.  Fail-closed: when the operator table cannot be translated, or a
+    translated table differs from the running implementation, the generated file does not compile (the reason is
+    spelled in the unknown identifier Coq complains about); a class that cannot be translated gets no table, so the
+    proofs about that class stop compiling."""
+    from .translate import dispatch_tr
+    from .translate.pyast import Untranslatable
+    gen = os.path.join(lib.COQ, "gen")
+    try:
+        texts, report = dispatch_tr.translate(lib.REPO)
+    except (Untranslatable, Exception) as ex:   # noqa
+        msg = "%s: %s" % (type(ex).__name__, ex)
+        bad = "(* GENERATED - the translator FAILED: %s *)\nDefinition translator_failed := TRANSLATOR_FAILED__%s.\n" % (msg.replace("*)", "* )"), _ident(msg))
+        changed = lib.write_if_changed(os.path.join(gen, "Operators.v"), bad)
+        lib.write_if_changed(os.path.join(gen, "Dispatch.v"), "From PySMT.gen Require Import Operators.\n")
+        return {"failed": [msg], "changed": changed}
+    tail = ""
+    for f in report["failed"]:
+        tail += "(* NOT TRANSLATED: %s *)\n" % f.replace("*)", "* )")
+    if report["validation"]:
+        tail += "Definition translated_tables_validated := TRANSLATED_TABLE_DIFFERS_FROM_THE_RUNNING_IMPLEMENTATION__%s.\n" % _ident(report["validation"][0])
+    changed = lib.write_if_changed(os.path.join(gen, "Operators.v"), texts["Operators.v"])
+    changed = lib.write_if_changed(os.path.join(gen, "Dispatch.v"), texts["Dispatch.v"] + tail) or changed
+    report["changed"] = changed
+    return report
+
+
 def regen_all():
     reports = {}
     for name, fn in GENERATORS.items():
@@ -26,4 +58,4 @@ def regen_all():
     return reports
 
 
-GENERATORS = {"Logics": regen_logics}
+GENERATORS = {"Logics": regen_logics, "Dispatch": regen_dispatch}
